@@ -110,6 +110,9 @@ pub const GET_GET: u8 = 0;
 pub const GET_AT: u8 = 1;
 pub const GET_GET_MUT: u8 = 2;
 pub const GET_AT_MUT: u8 = 3;
+pub const GET_UNCHECKED: u8 = 4; // get_unchecked(i), only issued for i < len
+pub const GET_UNCHECKED_MUT: u8 = 5;
+pub const GET_KINDS: u8 = 6;
 
 // ---- Iter kinds ---------------------------------------------------------------------
 pub const IT_ITER: u8 = 0;
@@ -155,7 +158,8 @@ pub const TP_PUSH_HANDLE: u8 = 4;
 pub const TP_SPLICE: u8 = 5;
 pub const TP_SWAP: u8 = 6;
 pub const TP_DOWNCAST: u8 = 7;
-pub const TP_KINDS: u8 = 8;
+pub const TP_PUSH_LAZY: u8 = 8; // lazy clone of an element of a twin-typed vector
+pub const TP_KINDS: u8 = 9;
 
 /// One scenario step: flat, so that serialisation, deletion and field-wise
 /// simplification are uniform. All indices are *raw*; the model interprets them
